@@ -54,7 +54,8 @@ def run(prop, tier, seed, ctx):
         c = chains[tid - 1]
         st = c["steps"][pos - 1]
         for nme in names(mask):
-            ctx.violation("C16|%s|%s|%s" % (st[0], st[1], nme),
+            involved = {c["start"]} | {x[2] for x in c["steps"]}
+            ctx.violation("C16|%s|%s|%s%s" % (st[0], st[1], nme, "|valobj" if "valobj" in involved else ""),
                           "chain from %s, step %d %s: %s" % (c["start"], pos, st, nme), c)
     # binding self-test: flipping `equal` must be rejected
     bad = [[dict(o["ev"], equal=False)] for o in obs if o["ev"]["real"] == "ok" and o["ev"]["prox"] == "ok"][:50]
